@@ -802,6 +802,7 @@ func (db *DB) newTransaction(update bool) *Txn {
 		}
 	}
 	db.orc.trackTxnStart()
+	verifhook.Point("txn.start")
 	txn.readTs = db.orc.readTs()
 	verifhook.Point("txn.begin")
 
